@@ -34,9 +34,10 @@ VARIABLES l,        \* next line of Trace
           mkillAt,  \* monitor: index in msent from which FAILED contradicts a delivered Kill (0: none)
           mown,     \* monitor: the child went away on its own (released / crashes at start)
           mdone,    \* monitor: a STOP of a basic task was answered or a Kill was delivered
+          mgone,    \* monitor: the event loop has processed a terminal status of the task
           nviol
 
-tvars == <<l, mode, scn, cands, mk, msent, mlast, mlastSK, mkillAt, mown, mdone, nviol>>
+tvars == <<l, mode, scn, cands, mk, msent, mlast, mlastSK, mkillAt, mown, mdone, mgone, nviol>>
 allvars == <<vars, tvars>>
 
 Line == Trace[l]
@@ -114,12 +115,14 @@ MonitorStep ==
                  [] Line.ev = "Resp" /\ Line.r \in {"START", "Trigger"} /\ ~Line.err -> FALSE
                  [] OTHER -> mdone
   IN /\ msent' = sent2 /\ mlast' = last2 /\ mlastSK' = lastSK2 /\ mown' = own2 /\ mkillAt' = killAt2 /\ mdone' = done2
+     /\ mgone' = (mgone \/ (Line.ev = "Proc" /\ Terminal(Short(Line.state))))
      /\ nviol' = nviol
           + Soft("OneTerminal", OneTerminalOf(sent2), Blame(last2, ""))
           + Soft("KilledNotFailed", KilledNotFailedOf(sent2, killAt2, own2), Blame(last2, ""))
           + Soft("ExecutorSurvives", ~(Line.ev = "ExecutorExit" \/ Line.ev = "LoopHung"),
                  Blame(lastSK2, IF HasF("site") THEN Line.site ELSE "event loop"))
           + Soft("NoSurvivors", (Line.ev = "End" /\ done2) => Line.alive = 0, Blame(lastSK2, ""))
+          + Soft("GoneIsGone", IsDeliveredReq => ~mgone, Blame(ReqRec, ""))
 
 IsStep == Line.ev # "Reset" /\ ~Skipped
 
@@ -139,19 +142,19 @@ TStepLost ==
 
 TSkip ==
   /\ l <= Len(Trace) /\ Line.ev # "Reset" /\ Skipped
-  /\ l' = l + 1 /\ UNCHANGED <<vars, mode, scn, cands, mk, msent, mlast, mlastSK, mkillAt, mown, mdone, nviol>>
+  /\ l' = l + 1 /\ UNCHANGED <<vars, mode, scn, cands, mk, msent, mlast, mlastSK, mkillAt, mown, mdone, mgone, nviol>>
 
 TReset ==
   /\ l <= Len(Trace) /\ Line.ev = "Reset"
   /\ cands' = {InitState(Line.kind, Line.beh, Line.hold)}
   /\ mode' = "ok" /\ scn' = Line.scn /\ mk' = [kind |-> Line.kind, beh |-> Line.beh]
-  /\ msent' = <<>> /\ mlast' = NoReq /\ mlastSK' = NoReq /\ mkillAt' = 0 /\ mown' = FALSE /\ mdone' = FALSE
+  /\ msent' = <<>> /\ mlast' = NoReq /\ mlastSK' = NoReq /\ mkillAt' = 0 /\ mown' = FALSE /\ mdone' = FALSE /\ mgone' = FALSE
   /\ l' = l + 1 /\ UNCHANGED <<vars, nviol>>
 
 TraceInit ==
   /\ Is(InitState("basic", "sleep", FALSE))
   /\ l = 1 /\ mode = "lost" /\ scn = -1 /\ cands = {} /\ mk = [kind |-> "basic", beh |-> "sleep"]
-  /\ msent = <<>> /\ mlast = NoReq /\ mlastSK = NoReq /\ mkillAt = 0 /\ mown = FALSE /\ mdone = FALSE /\ nviol = 0
+  /\ msent = <<>> /\ mlast = NoReq /\ mlastSK = NoReq /\ mkillAt = 0 /\ mown = FALSE /\ mdone = FALSE /\ mgone = FALSE /\ nviol = 0
 
 TraceNext == TStep \/ TStepLost \/ TSkip \/ TReset
 
